@@ -1,0 +1,7 @@
+//go:build !verif
+
+package agentstorage
+
+// verifYield marks a scheduling point for the verification harness; without the
+// verif build tag it is an empty function that the compiler inlines away.
+func verifYield(point string, pi int) {}
